@@ -324,6 +324,25 @@ def noNs : XEv → Bool
     make up every declaration) -/
 def builderShaped (xs : List XEv) : Bool := xs.all noNs
 
+/-! ### no element written `<a></a>` (side condition of the idempotence theorems stated with `parseSource`) -/
+
+def isStartX : XEv → Bool
+  | .ev (.start _ _) => true
+  | _ => false
+def isEndX : XEv → Bool
+  | .ev (.end_ _) => true
+  | _ => false
+
+/-- the first event that is no namespace event is an END -/
+def headEndX : List XEv → Bool
+  | [] => false
+  | x :: xs => if noNs x then isEndX x else headEndX xs
+
+/-- no START followed by END with nothing but namespace events between them -/
+def noStartEndX : List XEv → Bool
+  | [] => true
+  | x :: xs => !(isStartX x && headEndX xs) && noStartEndX xs
+
 /-- the hypothesis of `ser_idempotent_partial`, checked by running the flattener:
     START_NS events come in runs directly in front of their start tag, never
     carry the empty string (the parser reports `xmlns=""` with `None`), and the
